@@ -317,9 +317,9 @@ def check_columns(case, ctx):
 
 
 SUBS = [
-    Sub("read", check_read, strategy=read_case, examples={"quick": 300, "thorough": 5000}, shards={"quick": 8, "thorough": 16}, fuzz={"thorough": 150}),
-    Sub("write", check_write, strategy=write_case, examples={"quick": 250, "thorough": 3000}, shards={"quick": 6, "thorough": 16}),
-    Sub("cycle", check_cycle, strategy=cycle_case, examples={"quick": 100, "thorough": 1200}, shards={"quick": 10, "thorough": 16}),
+    Sub("read", check_read, strategy=read_case, examples={"quick": 300, "thorough": 2000}, shards={"quick": 8, "thorough": 16}, fuzz={"thorough": 150}),
+    Sub("write", check_write, strategy=write_case, examples={"quick": 250, "thorough": 1500}, shards={"quick": 6, "thorough": 16}),
+    Sub("cycle", check_cycle, strategy=cycle_case, examples={"quick": 100, "thorough": 500}, shards={"quick": 10, "thorough": 16}),
     Sub("columns", check_columns, enumerate=column_cases, shards={"quick": 2, "thorough": 2}, exhaustive=True),
 ]
 
